@@ -270,7 +270,7 @@ pub fn wait_until(mut f: impl FnMut() -> bool) -> bool {
         } else {
             std::thread::sleep(std::time::Duration::from_micros(200));
         }
-        if t0.elapsed().as_secs() >= 20 {
+        if t0.elapsed().as_secs() >= 20 * CAP_SCALE {
             return false;
         }
     }
